@@ -35,6 +35,12 @@ ReplaceOK(items) ==
     /\ UsesEverywhere(items, "crate::support::ReplT", "Tgt")
     (* members of an allOf are merged structurally, not referenced *)
     /\ HasField(items, "HubMerged", "q") /\ HasField(items, "HubMerged", "z")
+    /\ HasField(items, "Zed", "q") /\ HasField(items, "Zed", "z")
+    /\ Mentions(Field(items, "Zuse", "t"), "crate::support::ReplT")
+    (* a replacement is named by the identifier of the definition (key "3d-point", identifier X3dPoint) *)
+    /\ ItemsNamed(items, "X3dPoint") = {}
+    /\ Mentions(Field(items, "Hub", "odd"), "crate::support::ReplT") /\ Mentions(Field(items, "Hub", "oddarr"), "crate::support::ReplT")
+    /\ \A x \in AllFields(items) : ~Mentions(x, "X3dPoint")
 
 (* one patch target: new name (or the old one when there is no rename) defined with the extra
    derives, the old name nowhere *)
